@@ -235,6 +235,12 @@ class Engine(
                     # in putting those upstream of this operation, so we also
                     # add a nested subquery here.
                     return Select.apply_skip(operation._finish_apply(select))
+                elif select.has_projection and tag in select.skip_to.columns:
+                    # The existing Projection hides a column with the same tag
+                    # as the new one (which other operations in this Select,
+                    # like its Sort, may still use), so the Calculation cannot
+                    # be moved upstream of it; add a nested subquery instead.
+                    return Select.apply_skip(operation._finish_apply(select))
                 elif select.has_projection:
                     return select.reapply_skip(
                         after=operation,
